@@ -34,8 +34,8 @@ def pyBinCountOnes (a : Int) : Int := (Model.countBits a.natAbs : Nat)
 def pyRange (a b : Int) : List Int := (List.range (b - a).toNat).map (fun (k : Nat) => a + (k : Int))
 /-- `sum(f(m) for m in l)` -/
 def pySum (l : List Int) (f : Int → Int) : Int := l.foldl (fun acc m => acc + f m) 0
-/-- `scipy.special.binom(n, k)` on non-negative integers whose value is below 2^53 (the float it returns is then the
-    exact integer; the translated caller stores it into an int32 array).  ASSUMED, part of the trusted base. -/
+/-- `math.comb(n, k)` on non-negative integers (exact; Python raises for negative arguments — the translated caller
+    passes none, see `py_z_matrix`) -/
 def pyBinom (n k : Int) : Int := (Model.binom n.toNat k.toNat : Nat)
 
 end PyPrelude
